@@ -56,6 +56,7 @@ func main() {
 	verbose := flag.Bool("v", false, "verbose")
 	evidenceOut := flag.String("evidence", "", "evidence file to write")
 	extraJSON := flag.String("extra", "", "JSON file with extra coverage keys (bounded stand-ins) to merge into the evidence")
+	level := flag.String("level", "proof", "evidence level to record")
 	flag.Parse()
 	t0 := time.Now()
 	seed := 0
@@ -132,7 +133,7 @@ func main() {
 					continue
 				}
 				seen[o.Guard] = true
-				covers = append(covers, &Obligation{Name: o.Name + "#cover", Kind: "cover", Guard: o.Guard, Goal: "false", MustFail: true, vc: u.vc, Unit: u.Unit})
+				covers = append(covers, &Obligation{Name: o.Name + "#cover", Kind: "cover", Guard: o.Guard, Goal: "false", MustFail: true, vc: u.vc, Unit: u.Unit, NAssert: o.NAssert, NDecl: o.NDecl, NValueQ: o.NValueQ})
 			}
 		}
 	}
@@ -241,6 +242,7 @@ func main() {
 	fmt.Printf("govc: property=%s tier=%s units=%d obligations=%d discharged=%d violations=%d known=%d undecided=%d  load=%.1fs gen=%.1fs solve=%.1fs total=%.1fs\n",
 		*prop, *tier, len(units), len(obls), nDis, len(violations), len(knownMatched), len(undecided), tLoad, tGen, tSolve, wall)
 	if *evidenceOut != "" {
+		evidenceLevel = *level
 		writeEvidence(*evidenceOut, *prop, *tier, seed, units, obls, covers, solvers, violations, knownMatched, undecided, wall, *extraJSON, eng)
 	}
 	os.Exit(exit)
@@ -391,12 +393,14 @@ func writeEvidence(path, prop, tier string, seed int, units []*UnitResult, obls,
 	var assumptions []string
 	assumptions = append(assumptions, tb...)
 	ev := map[string]interface{}{
-		"property_id": prop, "tier": tier, "seed": seed, "level": "proof", "coverage": cov, "assumptions": assumptions,
+		"property_id": prop, "tier": tier, "seed": seed, "level": evidenceLevel, "coverage": cov, "assumptions": assumptions,
 		"wall_s": round2(wall), "violations": len(violations),
 	}
 	b, _ := json.MarshalIndent(ev, "", " ")
 	os.MkdirAll(filepath.Dir(path), 0755)
 	os.WriteFile(path, b, 0644)
 }
+
+var evidenceLevel = "proof"
 
 func round2(f float64) float64 { return float64(int(f*100+0.5)) / 100 }
